@@ -3,7 +3,7 @@
 From Coq Require Import String.
 From Coq Require Import List Strings.Byte NArith ZArith Bool.
 Require Import Bytes Show Tables Codec Norm CleanPath Chain.
-Require Serve Rot Ser ResetLang ResetModel ResetClass.
+Require Serve Rot Ser ResetLang ResetModel ResetClass Range UriSplit TrailerKeys.
 Import ListNotations.
 
 Definition arg (args : list bs) (i : nat) : bs := nth i args [].
@@ -49,7 +49,13 @@ Definition entries : list (bs * (list bs -> bs)) := [
   (B "append_header_line", fun a => Ser.append_header_line (arg a 0) (arg a 1));
   (B "nl2sp", fun a => Ser.nl2sp (arg a 0));
   (B "reset_exempt", fun a => join (B ",") (ResetClass.exempt_for (arg a 1)));
-  (B "reset_unreset", fun a => reset_unreset (arg a 0) (arg a 1))
+  (B "reset_unreset", fun a => reset_unreset (arg a 0) (arg a 1));
+  (B "split_host_uri", fun a => UriSplit.show_split (UriSplit.split_host_uri (arg a 0) (arg a 1)));
+  (B "set_trailers", fun a => TrailerKeys.show_trailers (TrailerKeys.set_trailers (arg a 0)));
+  (B "parse_byte_range", fun a => Range.show_range (Range.parse_byte_range (arg a 0) (parse_Z (arg a 1))));
+  (B "parse_uint_buf", fun a => Range.show_pu (Range.parse_uint_buf (arg a 0)));
+  (B "ci_compare", fun a => show_bool (TrailerKeys.ci_compare (arg a 0) (arg a 1)));
+  (B "normalize_header_key", fun a => TrailerKeys.normalize_header_key (arg a 0))
 ].
 
 Fixpoint lookup (cmd : bs) (l : list (bs * (list bs -> bs))) : option (list bs -> bs) :=
@@ -63,3 +69,7 @@ Definition dispatch (cmd : bs) (args : list bs) : bs :=
   | Some f => f args
   | None => B "UNKNOWN-COMMAND"
   end.
+
+(* stable names for the byte <-> number conversions modeld.ml uses *)
+Definition verif_byte_of_N := Byte.of_N.
+Definition verif_byte_to_N := Byte.to_N.
